@@ -13,7 +13,7 @@ import typing
 import z3
 from .values import (Unsupported, Obj, EnumSym, SBytes, Guarded, Opaque, SList, SDict, UNDEF, Undefined,
                      BoundSym, TimerRec)
-from .interp import Closure, Frame, TRUE, FALSE
+from .interp import Closure, Frame, TRUE, FALSE, UndefinedUse
 from .exprs import Engine, _mro_dict, _is_generated, _LOCK_TYPES
 
 
@@ -63,7 +63,9 @@ class Full(Engine):
             for c, v in reversed(outs[:-1]):
                 res = self.ite(c, v, res)
             return res
-        if fn is None or isinstance(fn, Undefined):
+        if isinstance(fn, Undefined):
+            raise UndefinedUse("call of an undefined value")
+        if fn is None:
             self.raises.append((pc, TypeError))
             return UNDEF
         stub = self._find_stub(fn)
@@ -582,8 +584,9 @@ class Full(Engine):
     def from_bytes(self, args, kwargs, pc):
         b = self.sbytes(args[0])
         order = args[1] if len(args) > 1 else kwargs.get("byteorder", "big")
-        if kwargs.get("signed"):
-            raise Unsupported("from_bytes signed")
+        signed = kwargs.get("signed", False)
+        if self.is_sym(signed):
+            raise Unsupported("from_bytes symbolic signed flag")
         bs = b.bs if order == "big" else list(reversed(b.bs))
         if not bs:
             return 0
@@ -591,32 +594,34 @@ class Full(Engine):
             t = z3.IntVal(0)
             for x in bs:
                 t = t * 256 + z3.BV2Int(x)
+            if signed:
+                t = z3.If(t >= (1 << (8 * len(bs) - 1)), t - (1 << (8 * len(bs))), t)
             return t
         if 8 * len(bs) > self.W - 2:
             raise Unsupported(f"from_bytes of {len(bs)} octets exceeds BV width {self.W}")
         cat = z3.Concat(*bs) if len(bs) > 1 else bs[0]
-        t = z3.ZeroExt(self.W - 8 * len(bs), cat)
+        t = (z3.SignExt if signed else z3.ZeroExt)(self.W - 8 * len(bs), cat)
         self.mag[t.get_id()] = 8 * len(bs)
         return t
 
     def to_bytes(self, x, args, kwargs, pc):
         n = args[0] if args else kwargs.get("length", 1)
         order = args[1] if len(args) > 1 else kwargs.get("byteorder", "big")
-        if kwargs.get("signed"):
-            raise Unsupported("to_bytes signed")
-        if self.is_sym(n):
-            raise Unsupported("to_bytes symbolic length")
+        signed = kwargs.get("signed", False)
+        if self.is_sym(n) or self.is_sym(signed):
+            raise Unsupported("to_bytes symbolic length/signed flag")
         if isinstance(x, z3.BoolRef):
             x = self.num(x)
+        lo, hi = (-(1 << (8 * n - 1)), 1 << (8 * n - 1)) if signed else (0, 1 << (8 * n))
         if self.mode != "bv":
-            bad = z3.Or(x < 0, x >= (1 << (8 * n)))
+            bad = z3.Or(x < lo, x >= hi)
             if self.pybool(z3.simplify(bad)) is not False:
                 self.raises.append((z3.And(pc, bad), OverflowError))
             out = [z3.Int2BV((x / (1 << (8 * (n - i - 1)))) % 256, 8) for i in range(n)]
         else:
             if 8 * n > self.W - 2:
                 raise Unsupported("to_bytes wider than BV width")
-            bad = z3.Or(x < self.const(0), x >= self.const(1 << (8 * n)))
+            bad = z3.Or(x < self.const(lo), x >= self.const(hi))
             if self.pybool(z3.simplify(bad)) is not False:
                 self.raises.append((z3.And(pc, bad), OverflowError))
             out = [z3.Extract(8 * (n - i) - 1, 8 * (n - i - 1), x) for i in range(n)]
